@@ -15,6 +15,7 @@ import (
 	"testing"
 	"time"
 
+	"golang.org/x/tools/go/ast/astutil"
 	"pgregory.net/rapid"
 
 	"verif/internal/gorun"
@@ -113,12 +114,47 @@ func (c *config) rename(src string) string {
 // (the function itself and its callees) is named after its shape, «(parameter types) result types».
 // Which plugin produced a function is therefore read off what it computes, not off its name: under nested
 // prefixes a helper of one plugin may legitimately carry a name that starts with another plugin's prefix.
-func canon(src []byte) (map[string]string, error) {
+func canon(src []byte, user map[string]string) (map[string]string, error) {
 	fset := token.NewFileSet()
 	f, err := parser.ParseFile(fset, "derived.gen.go", src, 0)
 	if err != nil {
 		return nil, err
 	}
+	// goderive keeps one function per class of mutually assignable argument types (N0 and []bool with
+	// type N0 []bool, byte and uint8, rune and int32) and spells its parameters after whichever call was
+	// registered first, which legitimately depends on the order of the plugins (sorted by prefix length).
+	// Named composite types of the package are therefore replaced by their underlying type expressions.
+	under := namedComposites(user)
+	astutil.Apply(f, func(c *astutil.Cursor) bool {
+		id, ok := c.Node().(*ast.Ident)
+		if !ok || id.Obj != nil {
+			return true
+		}
+		if _, isField := c.Parent().(*ast.SelectorExpr); isField && c.Name() == "Sel" {
+			return true
+		}
+		switch id.Name {
+		case "byte":
+			id.Name = "uint8"
+		case "rune":
+			id.Name = "int32"
+		default:
+			if u, ok := under[id.Name]; ok {
+				if kv, isKV := c.Parent().(*ast.KeyValueExpr); isKV && kv.Key == id {
+					return true
+				}
+				if fld, isFld := c.Parent().(*ast.Field); isFld {
+					for _, n := range fld.Names {
+						if n == id {
+							return true
+						}
+					}
+				}
+				c.Replace(u())
+			}
+		}
+		return true
+	}, nil)
 	alias := map[string]string{}
 	for _, im := range f.Imports {
 		path := strings.Trim(im.Path.Value, "\"")
@@ -229,6 +265,57 @@ func shadowedCalls(src []byte) []string {
 	return out
 }
 
+// namedComposites maps the named slice, array, map and pointer types declared in the user's files to
+// constructors of their (recursively expanded) underlying type expressions.
+func namedComposites(user map[string]string) map[string]func() ast.Expr {
+	srcs := map[string]string{}
+	for k, v := range user {
+		if !strings.HasPrefix(k, "p/") || !strings.HasSuffix(k, ".go") {
+			continue
+		}
+		f, err := parser.ParseFile(token.NewFileSet(), k, v, parser.SkipObjectResolution)
+		if err != nil {
+			continue
+		}
+		for _, d := range f.Decls {
+			gd, ok := d.(*ast.GenDecl)
+			if !ok || gd.Tok != token.TYPE {
+				continue
+			}
+			for _, sp := range gd.Specs {
+				ts := sp.(*ast.TypeSpec)
+				switch ts.Type.(type) {
+				case *ast.ArrayType, *ast.MapType, *ast.StarExpr:
+					var b bytes.Buffer
+					printer.Fprint(&b, token.NewFileSet(), ts.Type)
+					srcs[ts.Name.Name] = b.String()
+				}
+			}
+		}
+	}
+	// expand references to other named composites textually (declarations are acyclic through these kinds
+	// only via structs, which are not expanded)
+	for round := 0; round < 6; round++ {
+		for n, s := range srcs {
+			for m, ms := range srcs {
+				if m != n {
+					s = regexp.MustCompile(`\b`+m+`\b`).ReplaceAllString(s, ms)
+				}
+			}
+			srcs[n] = s
+		}
+	}
+	out := map[string]func() ast.Expr{}
+	for n, s := range srcs {
+		s := s
+		if _, err := parser.ParseExpr(s); err != nil {
+			continue
+		}
+		out[n] = func() ast.Expr { e, _ := parser.ParseExpr(s); return e }
+	}
+	return out
+}
+
 func canonSet(m map[string]string) []string {
 	var out []string
 	for _, v := range m {
@@ -293,6 +380,16 @@ func drawConfig(t *rapid.T, d *drawn) *config {
 		for i := 0; i < k && i < len(d.plugins); i++ {
 			pl := d.plugins[rapid.IntRange(0, len(d.plugins)-1).Draw(t, "ovplugin")]
 			pre := pick(t, "ovprefix", overridePool)
+			// an override is taken literally, also when it contains "derive" and a global prefix is set:
+			// keep the plugin's default name, or a name with "derive" inside
+			switch rapid.IntRange(0, 5).Draw(t, "ovderive") {
+			case 0:
+				pre = defaults[pl]
+			case 1:
+				pre = "auto" + defaults[pl]
+			case 2:
+				pre = "derive" + strings.ToUpper(pre[:1]) + pre[1:]
+			}
 			if usedPre[pre] || c.override[pl] != "" {
 				continue
 			}
@@ -448,7 +545,7 @@ func TestProp(t *testing.T) {
 			c.Fail(rt, map[string]string{"check": "default-run-no-file"}, "the default run exits 0 but writes no derived.gen.go for a package with derive calls\ncalls: "+strings.Join(d.calls, "; "), d.files, nil)
 			return
 		}
-		byName1, err := canon(out1)
+		byName1, err := canon(out1, d.files)
 		if err != nil {
 			c.Rep.Inconcl("default output does not parse: %v", err)
 			return
@@ -510,7 +607,7 @@ func TestProp(t *testing.T) {
 				}
 				continue
 			}
-			byName2, err := canon(out2)
+			byName2, err := canon(out2, renamed)
 			if err != nil {
 				fail("customised-output-unparsable", err.Error())
 				return
@@ -631,8 +728,8 @@ func TestReplay(t *testing.T) {
 	if sh := shadowedCalls(out2); len(sh) > 0 && len(shadowedCalls(out1)) == 0 {
 		t.Fatalf("still fails: shadowed calls %v", sh)
 	}
-	m1, e1 := canon(out1)
-	m2, e2 := canon(out2)
+	m1, e1 := canon(out1, def)
+	m2, e2 := canon(out2, renamed)
 	if e1 != nil || e2 != nil {
 		t.Fatalf("still fails: output does not parse (%v, %v)", e1, e2)
 	}
